@@ -206,7 +206,9 @@ def handleAcc (id offers obs : String) : Except String Verdict := do
   match splitObs obs with
   | [seen, res] =>
     let some h := fromHex seen | throw "outside-domain: header"
-    if h.contains 59 then throw "outside-domain: parameters in Accept-Charset (C09's territory)"
+    -- parameters in Accept-Charset: the selection is C09's territory; the no-panic oracle still applies
+    if h.contains 59 then
+      return { id := id, modelObs := res, implObs := res, spec := specNoPanic obs, tags := ["acc", "outside-model"] }
     let model : P String := (acceptsCharsets h os).map toHexField
     pure { id := id, modelObs := pRender model, implObs := res, spec := specNoPanic obs,
            tags := ["acc"] ++ (if h.contains 34 then ["nt-acc-quoted"] else ["nt-acc"]) }
@@ -218,7 +220,9 @@ def handleOffer (id offer obs : String) : Except String Verdict := do
   match splitObs obs with
   | [seen, res] =>
     let some h := fromHex seen | throw "outside-domain: header"
-    if h.contains 59 ∨ h.contains 44 ∨ h.contains 34 then throw "outside-domain: single media range without parameters only"
+    -- several ranges / parameters: the selection is C09's territory; the no-panic oracle still applies
+    if h.contains 59 ∨ h.contains 44 ∨ h.contains 34 then
+      return { id := id, modelObs := res, implObs := res, spec := specNoPanic obs, tags := ["offer", "outside-model"] }
     let spec := trim h 32
     let mimetype := if of.contains 47 then of else (mimeOf of).getD (b "application/octet-stream")
     let model : P String :=
